@@ -325,7 +325,12 @@ def check_dense(ctx):
         lo_k, hi_k, col_k = valkey(idx[0].lo), valkey(idx[0].hi), valkey(idx[1])
         # the anomaly's icolumns entry itself: nothing is applied to it afterwards (no subscript, slice or call selects a part)
         tail = col_k[col_k.rindex("icolumns") + len("icolumns"):] if "icolumns" in col_k else "("
-        ok = ".left" in lo_k and ".right" in hi_k and "[" not in tail and "(" not in tail and ".right" not in lo_k and ".left" not in hi_k
+        import re as _re
+
+        # only closing characters may follow (quotes, brackets of the key's own rendering, `/[1]` of a normal form); an
+        # np.asarray / np.array around the entry is the same entry
+        whole_entry = bool(_re.fullmatch(r"['\"\]\)]*(/\[1\])?", tail)) and not _re.search(r"(idx|slice|colslice|rowslice|take|compress)\(", col_k)
+        ok = ".left" in lo_k and ".right" in hi_k and whole_entry and ".right" not in lo_k and ".left" not in hi_k
         # open/closed adjustment: +1 on the start iff the interval is open on the left,
         # +1 on the end iff it is closed on the right (decided per path from the branch facts)
         start_open = end_closed = None
